@@ -41,3 +41,25 @@ Example cyclic_chain_is_refused_on_read :
   read_entry [EDelta 1; EDelta 0; EFull; EDelta 2; EDelta 3; EDelta 7] 4 = Some (Some 2) /\
   read_entry [EDelta 1; EDelta 0; EFull; EDelta 2; EDelta 3; EDelta 7] 5 = Some None.
 Proof. vm_compute. auto. Qed.
+
+(* ---------- completing a thin pack (Model/ThinPack.v) ---------- *)
+From DV Require Import ThinPack ThinPackP.
+
+(* a thin pack whose entries have distinct names and that is resolved completely -- whatever its deltas name as
+   bases: other entries, objects only the receiver has, objects the receiver has and the pack holds too -- is
+   completed (entries, then the objects extend_pack appends) without holding any object twice *)
+Theorem completed_thin_pack_has_no_duplicates : forall store order es,
+  NoDup (map fst es) ->
+  let s := complete true store order es in
+  (forall n, In n (map fst es) -> In n (prod s)) ->
+  NoDup (completed_names es s).
+Proof. exact completed_pack_has_no_duplicates_lemma. Qed.
+Print Assumptions completed_thin_pack_has_no_duplicates.
+
+(* without taking a resolved entry off the list of external bases (the code before its repair): P is a delta on
+   Q, Q a delta on an outside X, the receiver has Q and X, Q sorts first -- the completed pack holds Q twice *)
+Theorem completion_without_dedupe_refuted :
+  let s := complete false ex_store [1; 5] ex_entries in
+  (forall n, In n (map fst ex_entries) -> In n (prod s)) /\ completed_names ex_entries s = [1; 2; 5; 1].
+Proof. exact without_the_repair_a_duplicate. Qed.
+Print Assumptions completion_without_dedupe_refuted.
